@@ -210,10 +210,10 @@ theorem pre_votes_frame (s : St) (h : Header) (m : Int) :
     rw [d.1.2.2.2.2.2.2.2.2.1, c.1.2.2.2.2.2.2.2.2.1, b.1.2.2.2.2.2.2.2.2.1, a.1.2.2.2.2.2.2.2.2.1]
 
 /-- **issuance**: when `beginBlock` emits the reward event with amount `n`, the reward ledger version
-    `hopOf height` (1 for heights ≤ 4, else height − 4; `Led.at?`) exists, and for every ledger key `k`
+    `hopOf height` (1 for heights < 4, 0 = latest for height 4, else height − 4; `Led.at?`) exists, and for every ledger key `k`
     the cumulated reward grows by exactly the rewards of the matching signers' stakes owned by `k`
     (no-wrap bound as hypothesis); `n` is the total over all stakes modulo 2^256. -/
-theorem issuance {s : St} {h : Header} {n : Nat} (hi : (beginBlock s h).2.issued = some n) :
+theorem issuance_core {s : St} {h : Header} {n : Nat} (hi : (beginBlock s h).2.issued = some n) :
     ∃ rl, s.delegs.at? (hopOf h.height) = some rl ∧
       n = ((h.votes.map (voteRwdAll rl s.active.rewardPerPower)).sum) % two256 ∧
       ∀ k, cumOf s k + (h.votes.map (voteRwd rl s.active.rewardPerPower k)).sum < two256 →
@@ -233,5 +233,29 @@ theorem issuance {s : St} {h : Header} {n : Nat} (hi : (beginBlock s h).2.issued
     unfold cumOf; rw [hr]
   have := hcum k (by rw [hc0]; exact hb)
   rw [hc0] at this; exact this
+
+end Rigo.C13
+
+namespace Rigo.C13
+open Rigo
+
+/-- for sane powers the reward of a stake is exactly `power × rewardPerPower` -/
+theorem stakeRwd_exact (rpp : Nat) (st : Stake) (hp : 0 ≤ st.power ∧ st.power < (two64 : Int))
+    (hb : st.power.toNat * rpp < two256) : stakeRwd rpp st = st.power.toNat * rpp := by
+  unfold stakeRwd wmul
+  rw [Int.emod_eq_of_lt hp.1 hp.2, Nat.mod_eq_of_lt hb]
+
+/-- votes that are not signed, or whose validator is unknown to the reward ledger version, or whose
+    power differs from the recorded total power, earn nothing for anybody -/
+theorem voteRwd_skipped (rl : KMap Delegatee) (rpp : Nat) (k : String) (v : VoteIn)
+    (h : v.signed = false ∨ rl[ledgerKey v.addr]? = none ∨ ∃ d, rl[ledgerKey v.addr]? = some d ∧ d.total ≠ v.power) :
+    voteRwd rl rpp k v = 0 ∧ voteRwdAll rl rpp v = 0 := by
+  have : rewardedDeleg rl v = none := by
+    unfold rewardedDeleg
+    rcases h with h | h | ⟨d, h, hne⟩
+    · simp [h]
+    · simp [h]
+    · simp [h, hne]
+  simp [voteRwd, voteRwdAll, this]
 
 end Rigo.C13
